@@ -8,7 +8,7 @@ from collections import OrderedDict
 
 from . import ops
 from .ops import PyExc, truth, zbool, to_sbool, values_equal, compare
-from .sym import (Sym, SBool, SInt, SReal, SDate, SStr, SOpaque, SList, SSet,
+from .sym import (SText, Sym, SBool, SInt, SReal, SDate, SStr, SOpaque, SList, SSet,
                   SMap, SObj, StrS, slen, str_startswith, str_endswith,
                   Unsupported, is_numeric, num_z, to_real, T)
 from .extract import ModuleRef, RepoClass, RepoFunction
@@ -580,6 +580,8 @@ def value_method(it, v, name):
         return _str_method(it, v, name)
     if isinstance(v, SStr):
         return _sstr_method(it, v, name)
+    if isinstance(v, SText):
+        return _stext_method(it, v, name)
     if isinstance(v, list):
         return _list_method(it, v, name)
     if isinstance(v, tuple):
@@ -640,6 +642,23 @@ def _str_method(it, s, name):
         except (ValueError, TypeError, IndexError, KeyError) as e:
             raise PyExc(type(e).__name__, str(e))
     return Builtin(m, 'str.' + name)
+
+
+def _stext_method(it, s, name):
+    if name in ('startswith', 'endswith'):
+        def m(it2, prefix):
+            edge = s.parts[0] if name == 'startswith' else s.parts[-1]
+            if isinstance(edge, tuple):
+                fmt = edge[1]
+                lit = fmt.split('%')[0] if name == 'startswith' else fmt.rsplit('%', 1)[-1][1:]
+                if lit:
+                    return getattr(lit, name)(prefix) if len(lit) >= len(prefix) else False
+                raise Unsupported('SText.%s on a formatted edge' % name)
+            if isinstance(edge, str) and edge:
+                return getattr(edge, name)(prefix) if len(edge) >= len(prefix) else False
+            raise Unsupported('SText.%s on a symbolic edge' % name)
+        return Builtin(m)
+    return None
 
 
 def _sstr_method(it, s, name):
